@@ -7,7 +7,8 @@ predicate: Uquic/Spec/H3FieldsWF.lean (RFC 9114 §4.2–4.3). Every theorem quan
 lists `fs` (arbitrary bytes in names and values, any length), all limits, both directions, and all
 answers `ext` of `strings.ToLower` on non-ASCII names.
 -/
-import Uquic.Proofs.FieldsStep
+import Uquic.Proofs.FieldsParse
+import Uquic.Proofs.FieldsTrailers
 
 namespace Uquic.Props.C19
 open Uquic.Model.H3.Fields Uquic.Gen.H3Fields Uquic.Proofs.Fields
@@ -17,39 +18,6 @@ open Uquic.Spec.H3FieldsMon (requestRules responseRules)
 abbrev Field := List Nat × List Nat
 
 /-! ## 1. accept_sound -/
-
-/-- decomposition of a successful parseHeaders call -/
-theorem parse_ok_inv (ext : List Nat → Bool) (isReq : Bool) (lim : Int) (fs : List Field) (q : Bool) (h : Hdr)
-    (hp : parseHeadersQ ext isReq lim fs q = .ok h) :
-    ∃ s, Inv isReq lim fs s ∧ q = false ∧ finish s = .ok h := by
-  unfold parseHeadersQ at hp
-  split at hp
-  · cases hp
-  rename_i s hs
-  have inv := inv_run ext isReq lim fs [] _ s (inv_init isReq lim) hs
-  simp only [List.nil_append] at inv
-  cases q with
-  | true => simp at hp
-  | false => exact ⟨s, inv, rfl, by simpa using hp⟩
-
-theorem finish_cl (s : PS) (h : Hdr) (hf : finish s = .ok h) :
-    s.clStr = [] ∨ (s.clStr ≠ [] ∧ ∀ b ∈ s.clStr, isDigit b = true) := by
-  unfold finish at hf
-  split at hf
-  · rename_i hne
-    right
-    refine ⟨by simpa using hne, ?_⟩
-    split at hf
-    · cases hf
-    rename_i v hv
-    unfold parseUint63 at hv
-    split at hv
-    · rename_i hc
-      simp only [Bool.and_eq_true] at hc
-      exact fun b hb => List.all_eq_true.mp hc.1.2 b hb
-    · cases hv
-  · rename_i he
-    left; simpa using he
 
 /-- `accept_sound_partial`: every header section parseHeaders accepts satisfies every clause of the
     reference predicate, except that a Content-Length field may have an EMPTY value (finding
@@ -158,38 +126,6 @@ theorem reject_maps_to_error (e : Err) :
     cliTooLargeSpecial = false := by
   cases e <;> decide
 
-/-- the rejection classes of the parseHeaders loop -/
-def loopErrors : List Err := [.tooLarge, .notLower, .badValue, .pseudoAfterRegular, .unknownPseudo, .dupPseudo,
-  .reqPseudo, .respPseudo, .badName, .forbiddenName, .te, .clConflict]
-
-theorem validateRegular_err (f : Field) (e : Err) (h : validateRegular f = .error e) : e ∈ [Err.badName, .forbiddenName, .te] := by
-  unfold validateRegular at h
-  repeat' split at h
-  all_goals first | (cases h; decide) | cases h
-
-theorem regularErrors_sub : ∀ x ∈ [Err.badName, .forbiddenName, .te], x ∈ loopErrors := by decide
-
-theorem stepField_err (ext : List Nat → Bool) (isReq : Bool) (s : PS) (f : Field) (e : Err)
-    (h : stepField ext isReq s f = .error e) : e ∈ loopErrors := by
-  unfold stepField at h
-  simp only [] at h
-  repeat' split at h
-  all_goals first
-    | (cases h; decide)
-    | (cases h; exact regularErrors_sub _ (validateRegular_err f _ ‹_›))
-    | cases h
-
-theorem runFields_err (ext : List Nat → Bool) (isReq : Bool) (fs : List Field) :
-    ∀ (s : PS) (e : Err), runFields ext isReq s fs = .error e → e ∈ loopErrors := by
-  induction fs with
-  | nil => intro s e h; simp [runFields] at h
-  | cons f rest ih =>
-    intro s e h
-    simp only [runFields] at h
-    split at h
-    · rename_i e' hs; cases h; exact stepField_err ext isReq s f _ hs
-    · exact ih _ _ h
-
 /-- every rejection of parseHeaders is one of: a decoding error (only when the decoder reported one), an
     oversized section, or a malformed-section class -/
 theorem parse_error_classes (ext : List Nat → Bool) (isReq : Bool) (lim : Int) (fs : List Field) (q : Bool) (e : Err)
@@ -223,5 +159,78 @@ theorem malformed_request_stream_error (ext urlOK : List Nat → Bool) (lim : In
     by_cases ht : e = .tooLarge
     · exact Or.inr (this.2.1 ht).1
     · exact Or.inl (this.2.2.1 hq ht).1
+
+/-! ## 3. request_rules / response_rules -/
+
+/-- Every request section requestFromHeaders accepts is well formed (as in `accept_sound_partial`) and
+    satisfies the pseudo-header rules the code enforces (`Spec.H3FieldsMon.requestRules`):
+    extended CONNECT (CONNECT with a non-empty :protocol) has non-empty :scheme, :path and :authority;
+    CONNECT has a non-empty :authority and no (or an empty) :path; every other request has non-empty
+    :method, :path, :authority and no :protocol value.
+    Where the code is weaker than RFC 9114 (documented, not part of the fixed statement): a missing
+    :scheme is accepted for non-CONNECT requests (§4.3.1 requires it), and a :scheme or an empty :path
+    field is tolerated on CONNECT (§4.4 requires them to be omitted) — see the two examples below. -/
+theorem request_rules (ext urlOK : List Nat → Bool) (lim : Int) (hlim : 0 ≤ lim) (fs : List Field) (q : Bool) (r : Req)
+    (hp : requestFromHeaders ext urlOK lim fs q = .ok r) :
+    requestRules fs = true ∧ WellFormedG true true lim fs ∧ q = false := by
+  refine ⟨request_rules_of_ok ext urlOK lim fs q r hp, ?_⟩
+  unfold requestFromHeaders at hp
+  split at hp
+  · cases hp
+  rename_i hdr hparse
+  obtain ⟨_, _, hq, _⟩ := parse_ok_inv ext true lim fs q hdr hparse
+  subst hq
+  exact ⟨accept_sound_partial ext true lim hlim fs hdr hparse, rfl⟩
+
+/-- the rules are satisfiable: an ordinary request, a CONNECT and an extended CONNECT are accepted -/
+example : (errOf (requestFromHeaders (fun _ => true) (fun _ => true) 1000
+      [(nMethod, B "GET"), (nScheme, B "https"), (nAuthority, B "a"), (nPath, B "/x")] false) = none) ∧
+    (errOf (requestFromHeaders (fun _ => true) (fun _ => true) 1000 [(nMethod, mConnect), (nAuthority, B "a:443")] false) = none) ∧
+    (errOf (requestFromHeaders (fun _ => true) (fun _ => true) 1000
+      [(nMethod, mConnect), (nProtocol, B "websocket"), (nScheme, B "https"), (nAuthority, B "a"), (nPath, B "/x")] false) = none) := by
+  decide
+
+/-- leniency 1 (observation): a request without :scheme is accepted -/
+example : errOf (requestFromHeaders (fun _ => true) (fun _ => true) 1000
+    [(nMethod, B "GET"), (nAuthority, B "a"), (nPath, B "/x")] false) = none := by decide
+
+/-- leniency 2 (observation): CONNECT with a :scheme field is accepted; :protocol without CONNECT is not -/
+example : errOf (requestFromHeaders (fun _ => true) (fun _ => true) 1000
+    [(nMethod, mConnect), (nAuthority, B "a:443"), (nScheme, B "https")] false) = none ∧
+    errOf (requestFromHeaders (fun _ => true) (fun _ => true) 1000
+    [(nMethod, B "GET"), (nScheme, B "https"), (nAuthority, B "a"), (nPath, B "/x"), (nProtocol, B "websocket")] false) = some .protocol := by
+  decide
+
+/-- Every response section updateResponseFromHeaders accepts is well formed and has a non-empty,
+    optionally signed decimal :status (strconv.Atoi — a sign or a value outside 100..999 is NOT rejected;
+    observation, the fixed statement does not constrain the status value). -/
+theorem response_rules (ext : List Nat → Bool) (lim : Int) (hlim : 0 ≤ lim) (fs : List Field) (q : Bool) (r : Resp)
+    (hp : updateResponseFromHeaders ext lim fs q = .ok r) :
+    responseRules fs = true ∧ WellFormedG true false lim fs ∧ q = false := by
+  refine ⟨response_rules_of_ok ext lim fs q r hp, ?_⟩
+  unfold updateResponseFromHeaders at hp
+  split at hp
+  · cases hp
+  rename_i hdr hparse
+  obtain ⟨_, _, hq, _⟩ := parse_ok_inv ext false lim fs q hdr hparse
+  subst hq
+  exact ⟨accept_sound_partial ext false lim hlim fs hdr hparse, rfl⟩
+
+example : errOf (updateResponseFromHeaders (fun _ => true) 1000 [(nStatus, B "200"), (B "server", B "x")] false) = none ∧
+    errOf (updateResponseFromHeaders (fun _ => true) 1000 [(nStatus, B "-5")] false) = none ∧
+    errOf (updateResponseFromHeaders (fun _ => true) 1000 [(B "server", B "x")] false) = some .noStatus := by decide
+
+/-! ## 5. trailers_sound -/
+
+/-- Every trailer section parseTrailers accepts has no pseudo-header field, only lower-case token names,
+    no forbidden value byte, no connection-specific field, no name that RFC 9110 §6.5.1 forbids in
+    trailers, and is within the size limit; a decoding error is never ignored. -/
+theorem trailers_sound (ext : List Nat → Bool) (lim : Int) (hlim : 0 ≤ lim) (fs : List Field) (q : Bool) (h : Headers)
+    (hp : parseTrailersQ ext lim fs q = .ok h) : Uquic.Spec.H3Fields.TrailersWellFormed lim fs ∧ q = false :=
+  trailers_sound_of_ok ext lim hlim fs q h hp
+
+example : errOf (parseTrailers (fun _ => true) 1000 [(B "x-checksum", B "abc"), (B "etag", B "1")]) = none ∧
+    errOf (parseTrailers (fun _ => true) 1000 [(nStatus, B "200")]) = some .trlPseudo ∧
+    errOf (parseTrailers (fun _ => true) 1000 [(B "content-length", B "1")]) = some .trlName := by decide
 
 end Uquic.Props.C19
